@@ -38,6 +38,21 @@ func dump(what string) {
 		for k, v := range e.StructMutated() {
 			fmt.Println("  ", k, v)
 		}
+	case "helpers":
+		h := p.helpers()
+		for _, fn := range p.ModuleFuncs() {
+			if fn.Parent() != nil || fn.Synthetic != "" {
+				continue
+			}
+			kind := "opaque"
+			switch {
+			case h.anchors[fn]:
+				kind = "anchor"
+			case h.transparent[fn]:
+				kind = "transparent"
+			}
+			fmt.Printf("%-12s %-50s sites=%d value=%v\n", kind, shortFunc(fn), len(h.sites[fn]), h.usedAsValue[fn])
+		}
 	case "roots":
 		for _, f := range p.ServingRoots() {
 			fmt.Println("serving", shortFunc(f))
